@@ -10,6 +10,7 @@ import (
 	"hash/fnv"
 	"net"
 	"net/http"
+	"net/url"
 	"sort"
 	"sync"
 	"time"
@@ -444,8 +445,10 @@ func (p *PeerPool) forwardRelease(ctx context.Context, owner, subscriberID strin
 		return fmt.Errorf("no address for peer %s", owner)
 	}
 
-	url := fmt.Sprintf("http://%s/pool/release/%s", peerAddr, subscriberID)
-	httpReq, err := http.NewRequestWithContext(ctx, "DELETE", url, nil)
+	// The subscriber ID is one path segment: IDs carry blanks, '/', '?', '#'
+	// and '%' (access-line IDs, realm users), which must reach the owner intact
+	releaseURL := fmt.Sprintf("http://%s/pool/release/%s", peerAddr, url.PathEscape(subscriberID))
+	httpReq, err := http.NewRequestWithContext(ctx, "DELETE", releaseURL, nil)
 	if err != nil {
 		return fmt.Errorf("create request: %w", err)
 	}
